@@ -110,6 +110,24 @@ func (fr *Frame) staticCall(st *State, callee *ssa.Function, args []Val, binding
 	}
 	fc := vc.prog.cs.Funcs[key]
 	top := fr.top()
+	if top.fc != nil && top.fc.Opts["abstract"] != "" {
+		// `abstract pkg.F ...` in the unit's contract: calls to these callees are over-approximated by an arbitrary
+		// effect (every heap location havoced, arbitrary results, no obligation, may not return): sound for any callee.
+		// Used by units that decide something about this function alone (allocation budgets, C04).
+		for _, a := range strings.Fields(strings.ReplaceAll(top.fc.Opts["abstract"], ",", " ")) {
+			if a == key {
+				vc.assumptions["callee "+key+" abstracted in this unit: arbitrary heap effect and result (over-approximation, its own allocations are its own unit's subject)"] = true
+				for _, k := range vc.sortedHeapKeys() {
+					if k == "top" || k == "held" {
+						continue
+					}
+					st.heap[k] = vc.fresh(k, vc.heapSorts[k])
+					vc.heapRange(k, st.heap[k], false)
+				}
+				return fr.havocCall(st, key, callee.Signature, pos, false)
+			}
+		}
+	}
 	useContract := fc != nil && !fc.Inline && fc.applicable(top.view)
 	if top.lockOnly && callee.Blocks != nil && strings.HasPrefix(pkgPathOf(callee), "github.com/whatap/golib") {
 		useContract = false // lock discipline is tracked through bodies
